@@ -977,6 +977,8 @@ class InspectFunction(object):
             )
             inner_intro = _introspect(called_fun, arg_ctx, gctx, new_call_stack)
             inner_intro = inner_intro._replace(store_path=store_path)
+            # Register the path as a potential link to dependencies (like the paths of the data functions)
+            gctx.resolved_references[store_path] = inner_intro.fun_return_sig
             return inner_intro
 
         # Normal function call.
